@@ -13,6 +13,9 @@ from elexmodel.logger import getModelLogger
 from elexmodel.models import BaseElectionModel
 
 warnings.filterwarnings("error", category=UserWarning, module="cvxpy")
+# recent cvxpy releases attribute their warnings to the module that called the solver, so the inaccuracy warning that
+# fit_model retries on is also matched by its text
+warnings.filterwarnings("error", category=UserWarning, message="Solution may be inaccurate")
 
 PredictionIntervals = namedtuple("PredictionIntervals", ["lower", "upper", "conformalization"], defaults=(None,) * 3)
 
